@@ -485,3 +485,36 @@ func TestVerifReplaySchedNested(t *testing.T) {
 		fmt.Println("REPLAY: not-reproduced (real scheduler behaved on this nested pipeline)")
 	}
 }
+
+// ---- worker obligations (VerifSchedWorker): stage a as in the scenario; when the scenario says that
+// another stage has already recorded the run's error, an independent stage b fails hard and
+// finishes FIRST ----
+
+func TestVerifReplaySchedWorker(t *testing.T) {
+	data, err := os.ReadFile(os.Getenv("VERIF_SCENARIO"))
+	if err != nil {
+		t.Skip("no scenario")
+	}
+	var sc schedScenario
+	json.Unmarshal(data, &sc)
+	attrs := schedAttrs{}
+	for k, v := range sc.Inputs {
+		if bv, ok := v.(bool); ok {
+			attrs[k] = bv
+		}
+	}
+	n := 1
+	prios := [][]int{{0}}
+	if attrs["error-already-recorded-by-another-stage"] {
+		n = 2
+		attrs["fails.b"] = true
+		attrs["allow.b"] = false
+		prios = [][]int{{1, 0}} // b (the failing other stage) is released first, then a
+	}
+	v, _ := runSched(n, 0, func(k string) bool { return attrs[k] }, prios)
+	if v != "" {
+		fmt.Println("REPLAY: reproduced:", v)
+	} else {
+		fmt.Println("REPLAY: not-reproduced (real scheduler behaved on this scenario)")
+	}
+}
